@@ -4,17 +4,21 @@ From RQ Require Import Model.Num Model.Position Model.Account Model.AccountRun M
 Open Scope Z_scope.
 
 (* a new run erases the switches, the environment and the memoised results earlier runs left behind *)
-Theorem C13_boot_forgets : forall cfg rid p p',
-  pr_switches (boot cfg rid p) = pr_switches (boot cfg rid p') /\ pr_env (boot cfg rid p) = pr_env (boot cfg rid p') /\
-  pr_cache (boot cfg rid p) = pr_cache (boot cfg rid p').
+Theorem C13_boot_forgets : forall cfg hf rid p p',
+  pr_switches (boot cfg hf rid p) = pr_switches (boot cfg hf rid p') /\ pr_env (boot cfg hf rid p) = pr_env (boot cfg hf rid p') /\
+  pr_cache (boot cfg hf rid p) = pr_cache (boot cfg hf rid p').
 Proof. exact boot_forgets. Qed.
 (* whatever ran before in the process, the run's outcome is the same (order / trade ids renamed) *)
-Theorem C13_independent_of_earlier_runs : forall data cfg rid ops p p', wf_ops false ops ->
-  norm (pr_next_id p) (prun data (boot cfg rid p) ops) = norm (pr_next_id p') (prun data (boot cfg rid p') ops).
+Theorem C13_independent_of_earlier_runs_partial : forall data cfg hf rid ops p p', wf_ops false ops -> api_safe hf ops ->
+  norm (pr_next_id p) (prun data (boot cfg hf rid p) ops) = norm (pr_next_id p') (prun data (boot cfg hf rid p') ops).
 Proof. exact run_independent_of_history. Qed.
+(* the full statement (without api_safe) is false of the faithful model, as it is of the code: known finding D21 *)
+Theorem C13_independent_of_earlier_runs_refuted : exists data cfg rid p p',
+  norm (pr_next_id p) (prun data (boot cfg false rid p) [PFutureApi]) <> norm (pr_next_id p') (prun data (boot cfg false rid p') [PFutureApi]).
+Proof. exact api_registry_leaks. Qed.
 (* without the cache reset an earlier run's data would be visible *)
 Theorem C13_stale_cache_would_leak : exists data data' key p, data key <> data' key /\
-  prun data' (pfinal data p [PCached key]) [PCached key] <> prun data' {| pr_switches := pr_switches p; pr_env := 0; pr_cache := []; pr_margin_on := false; pr_next_id := 0 |} [PCached key].
+  prun data' (pfinal data p [PCached key]) [PCached key] <> prun data' {| pr_switches := pr_switches p; pr_env := 0; pr_cache := []; pr_margin_on := false; pr_next_id := 0; pr_future_apis := false |} [PCached key].
 Proof. exact stale_cache_would_leak. Qed.
 (* instruments the strategy never references do not change what it is served *)
 Theorem C13_lookup_in_superset : forall keep data id, keep id = true -> find_instr (restrict keep data) id = find_instr data id.
@@ -36,14 +40,16 @@ Proof. exact arun_frame. Qed.
 
 Example C13_example :
   wf_ops false [PSwitch 0; PCached 3; PMargin [0%Q]; POpenFuture; PMargin [5%Q]; PNewId] /\
-  prun (fun k => k * 2) (boot {| sw_reinvest := true; sw_cash_return := false; sw_t1 := true |} 2
+  api_safe true [PSwitch 0; PFutureApi] /\
+  prun (fun k => k * 2) (boot {| sw_reinvest := true; sw_cash_return := false; sw_t1 := true |} false 2
                               {| pr_switches := {| sw_reinvest := false; sw_cash_return := true; sw_t1 := false |}; pr_env := 1; pr_cache := [(3, 99)];
-                                 pr_margin_on := true; pr_next_id := 50 |})
+                                 pr_margin_on := true; pr_next_id := 50; pr_future_apis := false |})
        [PSwitch 0; PCached 3; PEnv; PMargin [0%Q]] = [OB true; OZ 6; OZ 2; OQ 0%Q].
-Proof. split; [cbn; repeat split; intros; try discriminate; repeat constructor | vm_compute; reflexivity]. Qed.
+Proof. split; [cbn; repeat split; intros; try discriminate; repeat constructor | split; [intros H; discriminate H | vm_compute; reflexivity]]. Qed.
 
 Print Assumptions C13_boot_forgets.
-Print Assumptions C13_independent_of_earlier_runs.
+Print Assumptions C13_independent_of_earlier_runs_partial.
+Print Assumptions C13_independent_of_earlier_runs_refuted.
 Print Assumptions C13_stale_cache_would_leak.
 Print Assumptions C13_lookup_in_superset.
 Print Assumptions C13_contracts_in_superset.
